@@ -16,7 +16,7 @@ enum tk
 	T_ARR,
 	T_OBJ
 };
-#define MAXN 8
+#define MAXN 9
 struct tn
 {
 	enum tk k;
@@ -365,7 +365,7 @@ static void gen_rec(int i)
 
 static void enumerate(void)
 {
-	int maxn = (int)mc_opt_int("nodes", mc_tier ? 6 : 5);
+	int maxn = (int)mc_opt_int("nodes", mc_tier ? 7 : 5);
 	(void)gen_children;
 	for (target_nodes = 1; target_nodes <= maxn; target_nodes++)
 	{
